@@ -476,6 +476,10 @@ def gen_replay(ctx, binp, racebin):
 def confirm_with(ctx, binp):
     def confirm(c):
         case = c["case"]
+        try:
+            json.dump(c, open(os.path.join(ctx.out, "last-candidate.json"), "w"), indent=1)
+        except Exception:
+            pass
         if not isinstance(case, dict):
             return True
         if "plan" in case and "mode" in case and "report" not in case:   # projection mismatch: force the same plan again, twice
